@@ -152,7 +152,10 @@ func TestReplay(t *testing.T) {
 	} else {
 		files = []string{target}
 	}
-	for _, f := range files {
+	for i, f := range files {
+		if len(files) > 1 && !kvh.GetEnv().Mine(i) {
+			continue // a directory of cases is dealt out to the workers of the run
+		}
 		raw, err := os.ReadFile(f)
 		if err != nil {
 			t.Fatalf("read %s: %v", f, err)
@@ -189,7 +192,9 @@ func TestReplay(t *testing.T) {
 // that quantify over operation histories.
 func runHistoryCase(t *rapid.T, property string, prof *kvh.GenProfile, nonTrivial func(r *kvh.Runner) bool) {
 	st := kvh.StatsFor(property)
-	first := kvh.GenOpt(t, "opt", prof.OptProfile)
+	firstProfile := prof.OptProfile
+	firstProfile.OddDirs = true // the directory of a plain history may have an odd name and hold foreign files
+	first := kvh.GenOpt(t, "opt", firstProfile)
 	pool := kvh.GenKeyPool(t, prof.Big)
 	r, f := kvh.NewRunner(property, first, gIO)
 	if f != nil {
